@@ -47,6 +47,31 @@ func instrument(sp *spec, repo, dir string, repl map[string]string) {
 			}
 		}
 		var buf bytes.Buffer
+		if is.Sched {
+			// rewritten syntax trees are printed without comments (comment positions no
+			// longer correspond); the build constraint header is re-emitted verbatim
+			raw, _ := os.ReadFile(src)
+			for _, line := range bytes.Split(raw, []byte("\n")) {
+				if bytes.HasPrefix(line, []byte("package ")) {
+					break
+				}
+				if bytes.HasPrefix(line, []byte("//go:build")) || bytes.HasPrefix(line, []byte("// +build")) {
+					buf.Write(line)
+					buf.WriteString("\n")
+				}
+			}
+			buf.WriteString("\n")
+			f.Comments = nil
+			f.Doc = nil
+			for _, d := range f.Decls {
+				switch x := d.(type) {
+				case *ast.FuncDecl:
+					x.Doc = nil
+				case *ast.GenDecl:
+					x.Doc = nil
+				}
+			}
+		}
 		if err := printer.Fprint(&buf, fset, f); err != nil {
 			fmt.Printf("BROKEN: cannot print %s: %v\n", src, err)
 			os.Exit(2)
